@@ -119,33 +119,42 @@ func VerifH_C12_changes() {
 	if err != nil {
 		failed = true
 	} else {
-		if err := cur.Filter(0, ""); err != nil {
-			failed = true
+		// SQLite may filter one cursor several times (the inner side of a
+		// join, a correlated subquery): every pass is a complete answer
+		passes := 1
+		if symParam("refilter", 1) == 1 && symChoice("refilter", 2) == 1 {
+			passes = 2
 		}
-		for n := 0; !failed && !cur.Eof(); n++ {
-			symAssert(n <= 4, "changes-cursor-terminates")
-			c0 := symSQLContext()
-			err := cur.Column(c0, 0)
-			if !faulty {
-				symAssert(err == nil, "changed-row-is-readable")
-			}
-			if err != nil {
+		for pass := 0; pass < passes && !failed; pass++ {
+			gotK, gotB = nil, nil
+			if err := cur.Filter(0, ""); err != nil {
 				failed = true
-				break
 			}
-			k, p, _ := symSQLResult(c0)
-			symAssert(k == rINT, "key-is-integer")
-			c1 := symSQLContext()
-			symAssert(cur.Column(c1, 1) == nil, "changed-row-is-readable")
-			k1, p1, _ := symSQLResult(c1)
-			gotK = append(gotK, p.(int64))
-			if k1 == rINT {
-				gotB = append(gotB, p1.(int64))
-			} else {
-				gotB = append(gotB, -1)
-			}
-			if err := cur.Next(); err != nil {
-				failed = true
+			for n := 0; !failed && !cur.Eof(); n++ {
+				symAssert(n <= 4, "changes-cursor-terminates")
+				c0 := symSQLContext()
+				err := cur.Column(c0, 0)
+				if !faulty {
+					symAssert(err == nil, "changed-row-is-readable")
+				}
+				if err != nil {
+					failed = true
+					break
+				}
+				k, p, _ := symSQLResult(c0)
+				symAssert(k == rINT, "key-is-integer")
+				c1 := symSQLContext()
+				symAssert(cur.Column(c1, 1) == nil, "changed-row-is-readable")
+				k1, p1, _ := symSQLResult(c1)
+				gotK = append(gotK, p.(int64))
+				if k1 == rINT {
+					gotB = append(gotB, p1.(int64))
+				} else {
+					gotB = append(gotB, -1)
+				}
+				if err := cur.Next(); err != nil {
+					failed = true
+				}
 			}
 		}
 	}
